@@ -141,7 +141,8 @@ TExit ==
   /\ LET t == Ev.trig IN
      WithDue(
      IF Ev.called /\ h[K].wait /\ h[K].reply.t # "none"
-     THEN (\E n \in 0..3 : HReply(K, n)) /\ ~h'[K].alive            \* PrepareKill, failed load, invalid request
+     THEN \/ (\E n \in 0..3 : HReply(K, n)) /\ ~h'[K].alive        \* PrepareKill, failed load, invalid request
+          \/ HReplyLost(K)                                            \* the connection broke meanwhile
      \* why a task may end is decided by its trigger and state alone (no error text is interpreted):
      \* inactivity only at the limit, a block only when it completes a corrupt assembly, a request for the
      \* loaded piece only if it is out of range
